@@ -120,9 +120,11 @@ CHECKS["C05"] = dict(
     technique="Coq proof over R + vm_compute correspondence + reference falsifier", design="5/C05")
 CHECKS["C06"] = dict(
     text="Theorems: RSI = 100 - 100/(1+gain/loss) lies in [0,100] and is 100 when the average loss is 0, Wilder's averages stay >= 0 "
-         "(reals); OBV's step law (unchanged / +volume / -volume by the close) for every NumOps instance. All nine indicators: bit-exact "
+         "(reals); OBV's step law (unchanged / +volume / -volume by the close) for every NumOps instance; VWAP over a whole stream = rounded "
+         "ratio of the cumulative sums of volume*typical price and volume; ROC = percentage change against the input `period` steps "
+         "back. All nine indicators: bit-exact "
          "engine correspondence + recurrence-spec correspondence (RSI, ROC, OBV, VWAP) + independent references.",
-    note="MACD, STOCH, TSI, AROON, ADX, VWAP, ROC: correspondence + reference falsifier only. Real-number axioms as for C04.",
+    note="MACD, STOCH, TSI, AROON, ADX: correspondence + reference falsifier only (single-reading relations of MACD/AROON are in C10). Real-number axioms as for C04.",
     technique="Coq proof over R / generic NumOps + vm_compute correspondences + reference falsifier", design="5/C06")
 CHECKS["C07"] = dict(
     text="Theorem: every recurrence specification computes a reading from a state and the newest candle only, and the state's buffer never "
